@@ -192,6 +192,9 @@ func (e *Engine) finishPath(st *State) {
 	cls := outcomeClass(st.outcome)
 	r.Steps += st.steps
 	r.Forks += st.forks
+	for _, l := range st.reached {
+		r.Reach[l]++
+	}
 	switch cls {
 	case "assume", "infeasible":
 		r.AssumeKills++
@@ -220,9 +223,6 @@ func (e *Engine) finishPath(st *State) {
 		}
 	} else {
 		r.Outcomes["ok"]++
-	}
-	for _, l := range st.reached {
-		r.Reach[l]++
 	}
 	nb := 0
 	for _, s := range st.syms {
